@@ -232,6 +232,14 @@ func (e *Engine) Run(h History) (*Mismatch, error) {
 			e.ErrHist[errCode(unhex(ms.atoms()[0]))]++
 		}
 		ctx := CmpCtx{Resp: e.resp[op.Conn], SlackMs: el.Milliseconds() + 25}
+		if len(args) > 1 {
+			switch strings.ToLower(string(args[0])) {
+			case "scan":
+				ctx.FullScan = string(args[1]) == "0"
+			case "sscan", "hscan":
+				ctx.FullScan = len(args) > 2 && string(args[2]) == "0"
+			}
+		}
 		if len(args) > 0 {
 			// which protocol the connection speaks: HELLO 2|3 switches when it is executed - at once, or, when it
 			// was queued in a transaction, when EXEC runs the queue (never, if the transaction is dropped)
